@@ -9,8 +9,13 @@ import json, os, subprocess, sys, tempfile, xml.etree.ElementTree as ET
 def main():
     args = sys.argv[1:]
     n = "16"
-    if args[:1] == ["-n"]:
-        n = args[1]; args = args[2:]
+    repo = "/repo"
+    while args[:1] and args[0] in ("-n", "--repo"):
+        if args[0] == "-n":
+            n = args[1]
+        else:
+            repo = args[1]
+        args = args[2:]
     base = json.load(open("/root/.vp/BASELINE.json"))
     stable = set(base["stable_pass"])
     fd, xml = tempfile.mkstemp(suffix=".xml"); os.close(fd)
@@ -18,7 +23,8 @@ def main():
     env.pop("TANGELO_VERIF", None)
     cmd = ["/venv/bin/python", "-m", "pytest", "-q", "-p", "no:cacheprovider", "--timeout=900",
            "--continue-on-collection-errors", "-n", n, f"--junitxml={xml}"] + args
-    r = subprocess.run(cmd, cwd="/repo", env=env, stdout=subprocess.PIPE, stderr=subprocess.STDOUT)
+    env["PYTHONPATH"] = repo
+    r = subprocess.run(cmd, cwd=repo, env=env, stdout=subprocess.PIPE, stderr=subprocess.STDOUT)
     passed, failed = set(), set()
     for tc in ET.parse(xml).getroot().iter("testcase"):
         name = f"{tc.get('classname')}::{tc.get('name')}"
